@@ -213,3 +213,16 @@ def run(chk, repo):
     chk.decide(okz, "C11.recursion", W("parcor"), short(zb), why="reversed polynomial z^-m A(1/z)", node=zb)
     chk.decide(oku, "C11.recursion", W("parcor"), short(up), why="step-down: A <- (A - k zB) / (1 - k^2)", node=up)
     chk.decide(okf, "C11.recursion", W("parcor"), short(fin), why="leading coefficient is forced back to exactly 1", node=fin)
+
+    # the Levinson side of the identity error = r[0] * prod(1 - k_m^2): the error stored by levinson_durbin is <A, A>
+    # itself (the recursion keeps <A_m, A_m> = <A_{m-1}, A_{m-1}> (1 - k_m^2), C10.levinson), whatever its sign
+    chk.rule("C11.error", "levinson_durbin stores error = inner(A, A) as it is (no abs / clamp: with an odd number of "
+                          "|k_m| > 1 the product r[0] * prod(1 - k_m^2) is negative)")
+    ld = repo.find(LL, "levinson_durbin")
+    ea = [s for s in ast.walk(ld) if isinstance(s, ast.Assign) and len(s.targets) == 1 and unparse(s.targets[0]).endswith(".error")]
+    chk.require(ea, "levinson_durbin: no '.error = ...' assignment")
+    for s in ea:
+        tgt = unparse(s.targets[0])[:-len(".error")]
+        chk.decide(unparse(s.value) in ("inner(%s, %s)" % (tgt, tgt),), "C11.error", W("levinson_durbin"), short(s),
+                   why="the prediction error must be the inner product <A, A> of the solution with itself, sign included",
+                   node=s)
